@@ -39,6 +39,9 @@ const (
 	SUpsert
 	SUpdate
 	SDelete
+	// SExplain is `EXPLAIN SELECT ...` (sqlgen's WithPanicOnNoIndex): the parsed
+	// form (Table, Columns, Where, ...) is that of the explained SELECT.
+	SExplain
 )
 
 func (k StmtKind) String() string {
@@ -63,6 +66,8 @@ func (k StmtKind) String() string {
 		return "UPDATE"
 	case SDelete:
 		return "DELETE"
+	case SExplain:
+		return "EXPLAIN"
 	}
 	return "INVALID"
 }
